@@ -157,6 +157,15 @@ def e1_impl(run, acc, tier):
              "INVARIANT NoDuplicateMembers\nPROPERTY RefinesSodg\nCHECK_DEADLOCK FALSE\n")
     rr = vlib.model_check(run, "MC_ImplR", cfg_r)
     acc.add_e1("MC_ImplR[fixed, 5 ids restricted, 2 usable slots of 3] refines Sodg", rr)
+    # SodgImpl refines SodgInd (member lists as sets), whose invariant Apalache shows to be INDUCTIVE at 6 ids / 3 usable slots of 4:
+    # counter = recount, tags = lists, reserved lists kept, no underflow, and "vertices die only by the read of the last unread datum
+    # of their whole group" hold from every state satisfying the invariant, reachable within TLC's bounds or not
+    ri = vlib.model_check(run, "MC_ImplInd", cfg_impl("fixed").replace("PROPERTY RefinesSodg", "INVARIANT IndInvHolds\nPROPERTY RefinesInd"))
+    acc.add_e1("MC_ImplInd[fixed, 3 ids] (SodgImpl refines SodgInd)", ri)
+    rows, cached = vlib.apalache_ind(run)
+    acc.e1.append({"model": "SodgInd via APA_Ind[6 ids, 5 slots of 4], Apalache 0.58 (symbolic): Init => IndInv; IndInv /\\ Next => IndInv'; "
+                            "IndInv /\\ Next => DiesOnlyByLastRead; IndInv => NoUnderflow; two probes that must be violated",
+                   "obligations": rows, "from_cache": cached})
     if tier == "thorough":
         r3 = vlib.model_check(run, "SodgImpl", cfg_impl("fixed", cap=4, nslots=4, slotsize=3), timeout=3000)
         acc.add_e1("SodgImpl[fixed, 4 ids] refines Sodg", r3)
@@ -296,13 +305,16 @@ def gc_plan(tier, s):
             dict(profile="fan", n=16, cap=64, steps=1500, seed=s * 100 + 7, window=24),          # a hub with 16 labels, 16 members
             dict(profile="high", n=16, cap=256, steps=1500, seed=s * 100 + 8, window=30),        # ids 226..255
             dict(profile="world", n=16, cap=64, steps=2500, seed=s * 100 + 9, window=11),        # twins + scripts + slices in one history
+            # deterministic life-cycles AT the limits: groups of exactly 16 with 13 others alive (slots 14, 15), collection, re-creation
+            dict(profile="cycle", n=2, cap=64, steps=1500, seed=s * 100 + 41, window=10),
+            dict(profile="cycle", n=16, cap=256, steps=1200, seed=s * 100 + 42, window=10),
         ]
     plan = []
     k = 0
     for n in (1, 2, 3, 4, 8, 16):
         for (prof, cap, win, steps) in (("mixed", 16, 10, 6000), ("mixed", 256, 60, 6000), ("groups14", 64, 28, 5000),
                                         ("big16", 48, 36, 4000), ("mixed", 6, 6, 4000), ("fan", 64, 24, 4000), ("high", 256, 30, 4000),
-                                        ("world", 64, 11, 6000), ("pairs", 28, 28, 1500)):
+                                        ("world", 64, 11, 6000), ("pairs", 28, 28, 1500), ("cycle", 64, 10, 4000), ("cycle", 200, 10, 3000)):
             k += 1
             plan.append(dict(profile=prof, n=n, cap=cap, steps=steps, seed=s * 1000 + k, window=win))
     return plan
@@ -390,9 +402,14 @@ def twin_plan(tier, s):
         return [dict(profile="world", n=16, cap=64, steps=2500, seed=s * 100 + 14, window=11),
                 dict(profile="twin", n=2, cap=24, steps=2500, seed=s * 100 + 11, window=10),
                 dict(profile="twin", n=16, cap=256, steps=2000, seed=s * 100 + 12, window=30),
-                dict(profile="twin", n=1, cap=12, steps=1500, seed=s * 100 + 13, window=8)]
+                dict(profile="twin", n=1, cap=12, steps=1500, seed=s * 100 + 13, window=8),
+                # copies taken AT the limits (full groups, all 14 slots in use, ids beyond 128 behind empty stretches of the table)
+                dict(profile="cycletwin", n=16, cap=256, steps=1600, seed=s * 100 + 15, window=10),
+                dict(profile="cycletwin", n=2, cap=64, steps=1600, seed=s * 100 + 16, window=10)]
     return [dict(profile="twin", n=n, cap=cap, steps=6000, seed=s * 1000 + 50 + i, window=w)
-            for i, (n, cap, w) in enumerate([(1, 12, 8), (2, 24, 10), (2, 64, 24), (3, 32, 12), (4, 40, 16), (8, 64, 20), (16, 256, 40), (16, 32, 12)])]
+            for i, (n, cap, w) in enumerate([(1, 12, 8), (2, 24, 10), (2, 64, 24), (3, 32, 12), (4, 40, 16), (8, 64, 20), (16, 256, 40), (16, 32, 12)])] + \
+           [dict(profile="cycletwin", n=n, cap=cap, steps=5000, seed=s * 1000 + 80 + i, window=10)
+            for i, (n, cap) in enumerate([(1, 64), (2, 200), (3, 46), (4, 256), (8, 130), (16, 256), (16, 64), (2, 64)])]
 
 
 def plan_c05(run, prop, tier):
@@ -1141,3 +1158,4 @@ def warm(run):
     for mode in ("access", "concat"):
         vlib.emit_ts(run, "HexGen", f"INIT Init\nNEXT Next\nCONSTANTS MaxLen = 11 MaxIdx = 12 Mode = \"{mode}\"\nCHECK_DEADLOCK FALSE\n")
     vlib.emit_ts(run, "LabelGen", "INIT Init\nNEXT Next\nCONSTANTS Full = 4 LongLo = 5 LongHi = 10\nCHECK_DEADLOCK FALSE\n", timeout=3000)
+    vlib.apalache_ind(run)
